@@ -247,6 +247,13 @@ Fixpoint sj_loop (fuel : nat) (t : tnode) (root cur rem : list string) : kerr + 
 
 Definition sj_max_links : nat := 255.   (* maxSymlinkLimit *)
 
+(* fingerprint of the SecureJoinVFS declaration (filepath-securejoin v0.4.1, join.go) that
+   sj_step / sj_pass / sj_loop / secure_join were transcribed from: SHA-256 of the declaration
+   as go/printer prints it without comments.  The translator computes the same fingerprint
+   from the version /repo/go.mod requires (Gen/SecureJoinLib.v, C16_securejoin_source). *)
+Definition sj_transcribed_sha256 : string :=
+  "8e009726dd0cb3f060dcf46ce11f4f2aeeacf7e3dbd89331e28fc311ef5b5b79".
+
 (* SecureJoin(root, unsafe) for a root given by its component list; the result is
    filepath.Join(root, filepath.Join("/", currentPath)) *)
 Definition secure_join (t : tnode) (root : list string) (unsafe : string) : kerr + list string :=
